@@ -1,9 +1,9 @@
 SPECIFICATION Spec
 CONSTANTS
-  Readers = {"r1", "r2"}
+  Readers = {"r1"}
   MaxMerges = 2
-  Purge = FALSE
+  Purge = TRUE
   TempCacheHas = TRUE
 VIEW view
-INVARIANTS TypeOK CacheFresh NoStaleRead
+INVARIANTS TypeOK
 CHECK_DEADLOCK FALSE
